@@ -15,7 +15,7 @@ import (
 // c11AuxOracle lists what the real strconv answers for the pieces of an aux text that sam.ParseAux
 // may hand to it (std-lib results are parameters of the model).  ok=false: too many pieces.
 func c11AuxOracle(text []byte) (string, bool) {
-	if len(text) < 6 {
+	if len(text) < 5 {
 		return "-", true
 	}
 	txt := text[5:]
